@@ -37,7 +37,29 @@ def run(tier="quick", root="/repo", evidence_dir=None, quiet=False):
     # file name and package read by the loader
     fname = None
     pkgname = None
+    # the loader together with the module-level helpers it calls (a lazy table accessor, ...)
+    scope = [f.node]
+    for _ in range(2):
+        for fn in list(scope):
+            for c in ast.walk(fn):
+                if isinstance(c, ast.Call) and isinstance(c.func, ast.Name):
+                    g = next((x for x in repo.funcs.values() if x.module == "coulomb" and x.cls is None
+                                   and x.name == c.func.id), None)
+                    if g is not None and g.node not in scope:
+                        scope.append(g.node)
+    CACHE = "_ATOMIC_GAUSS_PARAMS_CACHE"
+    # helpers all of whose returns hand out the cache object itself
+    accessors = {fn.name for fn in scope[1:]
+                 if (rs := [r for r in ast.walk(fn) if isinstance(r, ast.Return)]) and
+                 all(r.value is not None and norm(r.value) == CACHE for r in rs)}
+    table_names = {CACHE}
     for n in ast.walk(f.node):
+        if isinstance(n, ast.Assign) and isinstance(n.targets[0], ast.Name) and \
+                (norm(n.value) == CACHE or (isinstance(n.value, ast.Call) and isinstance(n.value.func, ast.Name)
+                                            and n.value.func.id in accessors and not n.value.args)):
+            table_names.add(n.targets[0].id)
+    table_names |= {f"{a}()" for a in accessors}
+    for n in (x for fn in scope for x in ast.walk(fn)):
         if isinstance(n, ast.Call) and isinstance(n.func, ast.Attribute) and n.func.attr == "joinpath" and n.args \
                 and isinstance(n.args[0], ast.Constant) and str(n.args[0].value).endswith(".json"):
             fname = n.args[0].value
@@ -57,7 +79,7 @@ def run(tier="quick", root="/repo", evidence_dir=None, quiet=False):
     entry_var = None
     for n in ast.walk(f.node):
         if isinstance(n, ast.Assign) and isinstance(n.value, ast.Subscript) and \
-                norm(n.value.value) == "_ATOMIC_GAUSS_PARAMS_CACHE" and isinstance(n.targets[0], ast.Name):
+                norm(n.value.value) in table_names and isinstance(n.targets[0], ast.Name):
             entry_var = n.targets[0].id
     if entry_var is None:
         raise AnalysisError("unrecognised idiom: loader does not read `_ATOMIC_GAUSS_PARAMS_CACHE[<symbol>]`")
